@@ -44,9 +44,15 @@ pub fn execute(ctx: &mut Ctx, s: &Scenario) -> Outcome {
 
 pub fn budget(prop: &str, thorough: bool) -> u64 {
     match (prop, thorough) {
+        // quick budgets are sized to 10-20 s per check on 16 cores; the cheap scenarios get more runs
         ("C08", false) => 480,
         ("C08", true) => 30_000,
         ("C10", true) => 600_000,
+        ("C15", false) => 96_000,
+        ("C18", false) => 64_000,
+        ("C07", false) => 48_000,
+        ("C19", false) | ("C14", false) => 32_000,
+        ("C15", true) | ("C18", true) | ("C07", true) => 2_400_000,
         (_, false) => 24_000,
         (_, true) => 1_200_000,
     }
